@@ -1,2 +1,78 @@
-(* placeholder: theorems follow *)
-From Mos Require Import Base.Prelude.
+(* C02 — the wire codec preserves message content.  Only statements; proofs in Codec/RoundtripProofs.v. *)
+From Mos Require Import Base.Prelude Codec.Name Codec.Msg Codec.Spec Codec.NameProofs Codec.SafetyProofs
+  Codec.WfProofs Codec.RoundtripProofs.
+
+(* The uncompressed encoding, packed into a buffer of the advertised length, succeeds and has exactly
+   the advertised length (Msg.Len). *)
+Theorem C02_len_exact : forall m : msg, wf_msg m ->
+  exists out, pack_msg (msg_len m) false 0 m = Ok out /\ length out = msg_len m.
+Proof.
+  intros m Hw. exists (plain_bytes m). split; [now apply pack_msg_plain|now apply plain_bytes_len].
+Qed.
+Print Assumptions C02_len_exact.
+
+(* Round trip without compression: the encoding decodes (whatever octets follow it) to a message with
+   the same view: header fields, questions, and per record owner, type, class, TTL and RDATA fields
+   (names octet-exact; unknown types byte for byte) in the same sections and order. *)
+Theorem C02_roundtrip_plain : forall (m : msg) (trailing : list N), wf_msg m ->
+  exists out m', pack_msg (msg_len m) false 0 m = Ok out /\
+                 unpack_msg (out ++ trailing) = Ok m' /\ view m' = view m.
+Proof.
+  intros m post Hw. exists (plain_bytes m), (relen m).
+  split; [now apply pack_msg_plain|]. split; [now apply unpack_plain|apply view_relen].
+Qed.
+Print Assumptions C02_roundtrip_plain.
+
+(* ... hence for every message the proxy accepts (incoming compression pointers resolved by the decoder) *)
+Theorem C02_accepted : forall (bs : list N) (m : msg), bytes bs -> unpack_msg bs = Ok m ->
+  exists out m', pack_msg (msg_len m) false 0 m = Ok out /\ length out = msg_len m /\
+                 unpack_msg out = Ok m' /\ view m' = view m.
+Proof.
+  intros bs m Hb Hu. pose proof (unpack_msg_wf bs m Hb Hu) as Hw.
+  exists (plain_bytes m), (relen m). split; [now apply pack_msg_plain|].
+  split; [now apply plain_bytes_len|]. split; [|apply view_relen].
+  rewrite <- (app_nil_r (plain_bytes m)). now apply unpack_plain.
+Qed.
+Print Assumptions C02_accepted.
+
+(* the executable oracle used by the correspondence check is implied by the theorem *)
+Theorem C02_oracle_plain : forall m : msg, wf_msg m ->
+  exists out, pack_msg (msg_len m) false 0 m = Ok out /\ spec_pack false m out = true.
+Proof.
+  intros m Hw. exists (plain_bytes m). split; [now apply pack_msg_plain|now apply spec_pack_plain].
+Qed.
+Print Assumptions C02_oracle_plain.
+
+(* With compression the full statement is FALSE of the faithful model (finding K1): a message the
+   decoder accepts whose compressed encoding the decoder itself rejects (more than 10 pointer hops). *)
+Fixpoint deep_names (k : nat) (acc : list N) : list (list N) :=
+  match k with
+  | O => []
+  | S k' => let n := [1; 97 + N.of_nat (12 - k)]%N ++ acc in n :: deep_names k' n
+  end.
+Definition deep_msg : msg :=
+  mkMsg (mkHeader 1 true 0 false false true true false false 0) []
+        (map (fun n => mkRR n 1 1 60 4 (RA [10;0;0;1]%N)) (deep_names 12 [])) [] [].
+
+Theorem C02_deep_chain_refuted :
+  exists m out, (exists bs, bytes bs /\ unpack_msg bs = Ok m) /\
+                pack_msg (msg_len m) true 0 m = Ok out /\ unpack_msg out = Err ETooManyPtr.
+Proof.
+  exists deep_msg.
+  destruct (pack_msg (msg_len deep_msg) true 0 deep_msg) as [out| | |] eqn:E; try (vm_compute in E; discriminate).
+  exists out. split.
+  - destruct (pack_msg (msg_len deep_msg) false 0 deep_msg) as [bs| | |] eqn:Ep; try (vm_compute in Ep; discriminate).
+    exists bs. vm_compute in Ep. inversion Ep; subst bs. split.
+    + unfold bytes. rewrite Forall_forall. intros x Hx. unfold isbyte.
+      apply N.ltb_lt.
+      revert x Hx. apply Forall_forall. apply forallb_forall_N. vm_compute. reflexivity.
+    + vm_compute. reflexivity.
+  - split; [reflexivity|]. vm_compute in E. inversion E; subst out. vm_compute. reflexivity.
+Qed.
+Print Assumptions C02_deep_chain_refuted.
+
+(* non-vacuity of the hypotheses: a concrete accepted message with a compression pointer *)
+Example C02_example :
+  exists m, unpack_msg [0;1;129;128;0;1;0;1;0;0;0;0; 1;97;0; 0;1;0;1; 192;12; 0;1;0;1; 0;0;0;60; 0;4; 1;2;3;4]%N = Ok m
+            /\ length (m_an m) = 1 /\ msg_len m = 36.
+Proof. eexists. split; [vm_compute; reflexivity|]. split; reflexivity. Qed.
